@@ -460,3 +460,86 @@ pub fn run(cfg: &ScenCfg, out: &mut RunOut) {
     }
     out.nontrivial = Some(wl);
 }
+
+/// A peer that keeps the receive path busy must not starve the command queue: with a
+/// shutdown already queued for the session and a backlog of N pipelined requests, a fair
+/// `select!` sees the command after a handful of requests (each round it is picked with
+/// probability 1/2); answering 64 or more first has probability 2^-64.
+/// variant 0: TCP server session, 1: RTU server
+pub fn run_backlog_vs_shutdown(cfg: &ScenCfg, out: &mut RunOut) {
+    let (dec_idx, decode) = pick_decode(&cfg.decode);
+    let chunk = chance(1, 2);
+    kernel::with(|w| {
+        w.cfg.sched_random = false;
+        w.cfg.select_random = true;
+        w.cfg.chunk_reads = chunk;
+    });
+    let n = 100 + choose(200) as usize;
+    let units = units1();
+    if cfg.variant == 0 {
+        let addr: SocketAddr = "10.0.0.1:502".parse().unwrap();
+        let rig = start_tcp_server(addr, &units, 4, AddressFilter::Any, decode);
+        kernel::settle();
+        let peer = net::connect_from(addr, "10.0.3.1:1000".parse().unwrap()).unwrap();
+        kernel::settle();
+        // the shutdown reaches the server task, which ends and thereby closes the session's channel
+        {
+            let mut fut = Box::pin(rig.handle.shutdown());
+            let _ = kernel::block_on(fut.as_mut());
+        }
+        // exactly the server task runs (FIFO, it is the only woken task)
+        kernel::step();
+        let mut backlog = Vec::new();
+        for i in 0..n {
+            backlog.extend(mbap_frame(i as u16, 1, &[4, 0, 5, 0, 1]));
+        }
+        peer.write(&backlog);
+        kernel::settle();
+        let got = peer.take_received();
+        let answered = got.len() / 11;
+        out.probe_n("backlog_answered_before_command", answered as u64);
+        if answered >= 64 {
+            out.violate("C07", "commands_starved_by_peer_traffic", format!("tcp session: shutdown was queued before a backlog of {} requests arrived, yet {} of them were answered first (a fair select would pass the command after a handful)", n, answered));
+            out.violate("C15", "commands_starved_by_peer_traffic", format!("session answered {} of {} backlog requests before honouring shutdown", answered, n));
+            return;
+        }
+        if !peer.remote_closed() {
+            out.violate("C15", "session_survives_shutdown", "session still open after shutdown".into());
+        }
+    } else {
+        serial::add_line(SRV_PATH, serial::OpenOutcome::Ok, true);
+        let rig = start_rtu_server(&units, (10 * MS, 40 * MS), decode);
+        kernel::settle();
+        {
+            let mut fut = Box::pin(rig.handle.shutdown());
+            let _ = kernel::block_on(fut.as_mut());
+        }
+        let mut backlog = Vec::new();
+        for _ in 0..n {
+            backlog.extend(rtu_frame(1, &[4, 0, 5, 0, 1]));
+        }
+        // the receive buffer holds 260 bytes: keep it supplied while the session runs
+        let mut answered = 0usize;
+        let mut pos = 0usize;
+        for _ in 0..n {
+            if pos < backlog.len() {
+                let e = (pos + 64).min(backlog.len());
+                serial::line_write(SRV_PATH, &backlog[pos..e]);
+                pos = e;
+            }
+            kernel::advance(5 * MS);
+            answered += serial::line_take(SRV_PATH).len() / 7;
+            if rig.task.is_finished() {
+                break;
+            }
+        }
+        out.probe_n("backlog_answered_before_command", answered as u64);
+        if answered >= 64 || !rig.task.is_finished() {
+            out.violate("C07", "commands_starved_by_peer_traffic", format!("rtu server: shutdown was queued before a backlog of {} requests arrived, yet {} were answered first (task finished: {})", n, answered, rig.task.is_finished()));
+            return;
+        }
+    }
+    out.ops_checked = n as u64;
+    out.nontrivial = Some((cfg.variant as u64) << 40 | (n as u64) << 8 | dec_idx as u64 | (chunk as u64) << 60);
+    out.sample = Some(json!({"scenario": "shutdown queued ahead of a request backlog", "variant": cfg.variant, "backlog": n}));
+}
